@@ -198,6 +198,7 @@ contract(F, "ClassDB.__contains__", props=["C15"], aliases=AL, isinstance_map=_I
          notes="membership is total: True for stored classes and labels 0..len-1, False otherwise, no other exception")
 
 contract(F, "ClassDB._is_empty", props=["C15"], aliases=AL, isinstance_map=_IS, lenient=True, returns=Bool,
+         may_raise=["UserCodeError"],
          params={"self": Obj("ClassDB"), "comb_class": CombClass},
          ensures=["result == truth(comb_class)"] + _VIEW_UNCHANGED + _E_UNCHANGED,
          modifies=["self._empty_time", "self._empty_num_application"])
@@ -217,6 +218,7 @@ contract(F, "ClassDB.set_empty", props=["C15"], aliases=AL, isinstance_map=_IS,
          notes="requires the caller to pass the class's true emptiness (call-site obligation), so the cache invariant holds")
 
 contract(F, "ClassDB.is_empty", props=["C15"], aliases=AL, isinstance_map=_IS, returns=Bool,
+         may_raise=["UserCodeError"],
          params={"self": Obj("ClassDB"), "comb_class": CombClass, "label": Opt(Int)},
          requires=["implies(not is_none(label), 0 <= val(label) and val(label) < len(self.comb_class_list) and "
                    "self.comb_class_list[val(label)] == compress(comb_class))"],
